@@ -20,12 +20,14 @@ ASSUMPTIONS = ["reset_length_cycles >= 1 and stop_length_cycles >= 1 (positive d
                "the cycle counts are the integers Python computed (float ceil); theorems quantify over all counts"]
 PARTIAL = ""
 
+FRACS = [0.5, 0.1, 0.9, 0.3, 0.7, 0.45, 0.55]
 FREQS = [1e6, 12e6, 48e6, 60e6, 100e6, 7.3728e6]
 
 
-def _lengths_for(f, cycles):
-    """A duration (seconds, float) whose cycle count at frequency f is robustly `cycles`."""
-    return (cycles - 0.5) / f
+def _lengths_for(f, cycles, frac=0.5):
+    """A duration (seconds, float) whose cycle count at frequency f is robustly `cycles`:
+    (cycles - 1 + frac) clock periods, 0 < frac < 1."""
+    return (cycles - 1 + frac) / f
 
 
 def gen_cases(tier, rng):
@@ -50,12 +52,17 @@ def gen_cases(tier, rng):
     for (r, s) in pairs:
         for _ in range(per):
             f = FREQS[k % len(FREQS)]
-            out.append({"f": f, "reset_length": _lengths_for(f, r), "stop_length": _lengths_for(f, s),
+            # durations that end 0.1 … 0.9 of a period into their last cycle (a duration is covered only
+            # if the pulse is rounded UP to whole cycles)
+            fr, fs = FRACS[k % len(FRACS)], FRACS[(k // len(FRACS) + 2) % len(FRACS)]
+            out.append({"f": f, "reset_length": _lengths_for(f, r, fr), "stop_length": _lengths_for(f, s, fs),
                         "power_on": int(k % 4 != 3), "seed": rng.u64(), "k": k})
             k += 1
     # "natural" parameters (exact decimal durations: exercises the float ceil), incl. the library defaults
     nat = [(60e6, 2e-6, 2e-6), (1e6, 3e-6, 9e-6), (1e6, 4e-6, 5e-6), (12e6, 1e-6, 10e-6), (60e6, 1e-6, 3e-6),
-           (48e6, 0.5e-6, 2.5e-6), (100e6, 1e-7, 2e-6), (1e6, 1e-6, 2e-6), (1e6, 1e-6, 1e-6)]
+           (48e6, 0.5e-6, 2.5e-6), (100e6, 1e-7, 2e-6), (1e6, 1e-6, 2e-6), (1e6, 1e-6, 1e-6),
+           (19.2e6, 2e-6, 2e-6), (48e6, 1.3e-6, 2.1e-6), (26e6, 1.55e-6, 1e-6), (12e6, 2e-8, 1.2e-7),
+           (24e6, 1e-6, 3e-8)]
     for i, (f, rl, sl) in enumerate(nat):
         out.append({"f": f, "reset_length": rl, "stop_length": sl, "power_on": int(i % 3 != 2),
                     "seed": rng.u64(), "k": i})
@@ -116,16 +123,23 @@ def run_case(desc):
     dut = PHYResetController(clock_frequency=f, reset_length=rl, stop_length=sl, power_on_reset=po)
     R, S = int(dut.reset_length_cycles), int(dut.stop_length_cycles)
     fails = []
-    # the integers the constructor computed, recomputed with the same float formula …
-    period = 1 / f
-    if (R, S) != (math.ceil(rl / period), math.ceil(sl / period)):
-        raise RuntimeError("cycle counts of the instance %r differ from the constructor formula" % ((R, S),))
-    # … and compared with the exact rational ceiling of duration x frequency (float rounding may move it by one)
-    exact = (math.ceil(Fraction(rl) * Fraction(f)), math.ceil(Fraction(sl) * Fraction(f)))
+    # The integers the constructor computed are judged against the exact rational product duration x
+    # frequency: the pulse must cover the configured duration (rounded UP to whole cycles) and not exceed
+    # it by more than the one cycle that float noise on an exact multiple can add (2 us at 60 MHz is
+    # 119.99999999999999 periods, 5 us at 100 MHz is 500.00000000000006).  A pulse shorter than the
+    # configured duration, or no pulse at all, is a failing configuration.
+    eps = Fraction(1, 10 ** 6)
+    prods = (Fraction(rl) * Fraction(f), Fraction(sl) * Fraction(f))
+    exact = (math.ceil(prods[0]), math.ceil(prods[1]))
+    lo = tuple(max(1, math.ceil(p - eps)) for p in prods)
+    hi = tuple(max(1, math.ceil(p + eps)) for p in prods)
     tags = ["float-ceil=exact" if exact == (R, S) else "float-ceil!=exact"]
-    if abs(exact[0] - R) > 1 or abs(exact[1] - S) > 1 or R < 1 or S < 1:
+    if not (lo[0] <= R <= hi[0] and lo[1] <= S <= hi[1]):
         fails.append({"cycle": 0, "sig": "cycle-count-off", "what":
-                      "cycle counts %r differ from ceil(duration*f) = %r by more than one" % ((R, S), exact)})
+                      "clock %g Hz, reset %g s, stop %g s: the controller uses %r cycles, but covering the configured "
+                      "durations takes ceil(duration*f) = %r cycles" % (f, rl, sl, (R, S), exact)})
+        return Case([max(R, 1), max(S, 1), int(po)], [[0]], [[None, None]], fails, tags + ["cycle-count-off"], desc,
+                    ["trigger"], ["phy_reset", "phy_stop"], lean=False)
     stim = desc.get("stimulus") or make_stimulus(R, S, Rng(desc["seed"]), desc.get("k", 0))
     rows = sim.run_cycles(dut, [dut.trigger], [dut.phy_reset, dut.phy_stop], stim)
     trig = [r[0] for r in stim]
